@@ -16,7 +16,8 @@ All theorems hold for EVERY state `s` (any hierarchy shape and depth, any conten
 by any history), any loader, any name; there is no bound on the history.
 
 Full statement / proved / missing
-* `C12_load`, `C12_load_foreign`, `C12_has`, `C12_get` — every lookup answers what `resolve` / `bound` say.   proved
+* `C12_load`, `C12_load_foreign`, `C12_has`, `C12_get` — every lookup answers what `resolve` / `bound` say;
+  `C12_lookups_pure` — and changes no binding and no resolution (a miss leaves a placeholder only).             proved
 * `C12_writeonce` (one step), `C12_writeonce_run` (any history) — a binding never changes or vanishes.            proved
 * `C12_redefine`, `C12_redefine_equal`, `C12_define_new` — different value: reported error and the state is
   unchanged; equal value: accepted and the state is unchanged; unbound: bound now.                                proved
@@ -49,6 +50,25 @@ theorem C12_load (s : Sys) (l : Nat) (n : Name) (ha : n.auth = runtimeAuthority)
 theorem C12_load_foreign (s : Sys) (l : Nat) (n : Name) (ha : n.auth ≠ runtimeAuthority) :
     step s (.load l n) = (s, .notfound) := by
   simp [step, load, ha]
+
+/-- a lookup changes no binding of any loader under any name (a miss leaves a placeholder, never a value): lookups,
+    queries and discoveries are invisible to every later resolution -/
+theorem C12_lookups_pure (s : Sys) (op : Op) (hop : ∀ l n v, op ≠ .define l n v) (l' : Nat) (k' : Key) :
+    bound (step s op).1 l' k' = bound s l' k' ∧ resolve (step s op).1 l' k' = resolve s l' k' := by
+  have hb : ∀ a k, bound (step s op).1 a k = bound s a k := by
+    intro a k
+    cases op with
+    | load l n => exact load_bound s l n a k
+    | define l n v => exact absurd rfl (hop l n v)
+    | has _ _ => rfl
+    | get _ _ => rfl
+    | discover _ _ => rfl
+  refine ⟨hb l' k', ?_⟩
+  unfold resolve
+  rw [step_ps]
+  congr 1
+  funext a
+  exact hb a k'
 
 theorem C12_has (s : Sys) (l : Nat) (n : Name) :
     step s (.has l n) = (s, .bool (resolve s l (canon n)).isSome) := by
